@@ -55,18 +55,27 @@ func (u SoupUnit) Each(maxLen int, f func(s string)) {
 		return
 	}
 	base := pre + Tokens[u.Prefix[0]] + Tokens[u.Prefix[1]]
-	var rec func(cur string, left int)
-	rec = func(cur string, left int) {
+	// sequences of more than 4 tokens are built from the first SoupCore tokens only
+	var rec func(cur string, n int, core bool)
+	rec = func(cur string, n int, core bool) {
 		f(cur + suf)
-		if left == 0 {
+		if n == maxLen {
 			return
 		}
-		for _, t := range Tokens {
-			rec(cur+t, left-1)
+		for ti, t := range Tokens {
+			c := core && ti < SoupCore
+			if n+1 > 4 && !c {
+				continue
+			}
+			rec(cur+t, n+1, c)
 		}
 	}
-	rec(base, maxLen-2)
+	rec(base, 2, u.Prefix[0] < SoupCore && u.Prefix[1] < SoupCore)
 }
+
+// SoupCore: the number of leading tokens of Tokens that make up the core alphabet (the
+// punctuation, operators, one name, the numbers and the literals).
+const SoupCore = 32
 
 // Mutants calls f for every one-token mutant of s: at every character position, delete the
 // character, insert each token before it, replace it by each token; plus each token appended.
